@@ -101,6 +101,12 @@ Definition dec_wsec (s : sexp) : option wsec :=
       do k' <- kind_of_name k; do h' <- dec_str h; do t' <- dec_ostr t; do its' <- as_list_of dec_witem its;
       Some (WItems k' h' t' its')
   | SList [SStr "adm"; h; t; ls] => do h' <- dec_str h; do t' <- dec_ostr t; do ls' <- dec_strs ls; Some (WAdm h' t' ls')
+  | SList [SStr "examples"; tr; h; t; chs] =>
+      do tr' <- as_bool tr; do h' <- dec_str h; do t' <- dec_ostr t;
+      do chs' <- as_list_of (fun s => match s with
+                                      | SList [b; ls] => do b' <- as_bool b; do ls' <- dec_strs ls; Some (b', ls')
+                                      | _ => None end) chs;
+      Some (WExamples tr' h' t' chs')
   | SList [SStr "ret"; m; n; SStr k; h; t; its] =>
       do m' <- as_bool m; do n' <- as_bool n;
       do k' <- kind_of_name k; do h' <- dec_str h; do t' <- dec_ostr t; do its' <- as_list_of dec_witem its;
